@@ -89,6 +89,8 @@ struct Alt {
   /// part of the committed state (published in-flight commit, log not yet
   /// truncated); re-applying them must not change contents
   phantom_adds: u32,
+  /// savepoint: length of `q` when the handle's mark was taken
+  mark: Option<usize>,
 }
 
 impl Alt {
@@ -96,6 +98,7 @@ impl Alt {
     Alt {
       q: Vec::new(),
       phantom_adds: 0,
+      mark: None,
     }
   }
   fn adds(&self) -> u32 {
@@ -182,6 +185,7 @@ pub fn gen_case(rng: &mut Rng, c02: bool, thorough: bool) -> CrashCase {
       weights,
       big_every,
       burst: if many { if c02 { 40 + rng.below(40) as u32 } else { 100 + rng.below(80) as u32 } } else { 0 },
+      savepoints: rng.chance(1, 3),
     };
     let mut ops = gen_ops(rng, &cfg, &p);
     if s > 0 && rng.chance(1, 2) {
@@ -208,7 +212,7 @@ pub fn gen_case(rng: &mut Rng, c02: bool, thorough: bool) -> CrashCase {
           *ver += ver_base;
           *h += s * 100;
         }
-        Op::NewWriter { h } | Op::Delete { h, .. } | Op::Commit { h } | Op::Rollback { h } | Op::DropWriter { h } => *h += s * 100,
+        Op::NewWriter { h } | Op::Delete { h, .. } | Op::Commit { h } | Op::Rollback { h } | Op::DropWriter { h } | Op::Savepoint { h } | Op::RollbackTo { h } => *h += s * 100,
         _ => {}
       }
     }
@@ -486,7 +490,7 @@ fn check_image(
           exempt = true;
         }
       }
-      Op::Rollback { .. } => exempt = true,
+      Op::Rollback { .. } | Op::RollbackTo { .. } => exempt = true,
       _ => {}
     }
   }
@@ -576,6 +580,7 @@ fn check_image(
       alts.push(Alt {
         q: Vec::new(),
         phantom_adds: adds,
+        mark: None,
       });
     }
     CModel {
@@ -591,6 +596,7 @@ fn check_image(
       alts: vec![Alt {
         q: on_disk.clone(),
         phantom_adds: 0,
+        mark: None,
       }],
       // what is on disk now stays on disk
       synced: on_disk_calls.clone(),
@@ -768,6 +774,9 @@ fn run_session(ctx: &mut Ctx, fs: &SimFs, session: &mut Session, start: CModel, 
           model.alts = vec![Alt::empty()];
           model.synced.clear();
         }
+        for a in model.alts.iter_mut() {
+          a.mark = None;
+        }
         // a writer opened after the crash has replayed the leftovers, so this
         // commit had something to do and cleared the log when it finished
         model.applied.clear();
@@ -776,6 +785,22 @@ fn run_session(ctx: &mut Ctx, fs: &SimFs, session: &mut Session, start: CModel, 
         model.alts = vec![Alt::empty()];
         model.synced.clear();
         model.applied.clear();
+      }
+      Op::Savepoint { .. } => {
+        for a in model.alts.iter_mut() {
+          a.mark = Some(a.q.len());
+        }
+      }
+      Op::RollbackTo { .. } => {
+        ctx.stats.inc("probe.partial_rollbacks");
+        for a in model.alts.iter_mut() {
+          if let Some(m) = a.mark.take() {
+            a.q.truncate(m);
+          }
+        }
+        // what was discarded no longer has to be (and must not be) on disk
+        let kept: BTreeSet<u32> = model.alts.iter().flat_map(|a| a.q.iter().map(|t| t.call)).collect();
+        model.synced.retain(|c| kept.contains(c));
       }
       Op::DropWriter { .. } => {
         if model.alts.iter().all(|a| !a.code_queue_empty()) {
